@@ -103,8 +103,16 @@ struct Holdings {
 
 type Shared = Rc<RefCell<Holdings>>;
 
+thread_local! {
+    static POOL_LEN: std::cell::Cell<usize> = const { std::cell::Cell::new(0) };
+}
+
 /// Take a received buffer into custody: it must not overlap any other live handle.
 fn hold(sh: &Shared, errs: &Errs, who: &str, buf: BufferRef, hold_us: u64) {
+    let limit = POOL_LEN.with(|p| p.get());
+    if buf.len() > limit {
+        errs.push("buffer-too-long", format!("{who}: received a buffer of {} bytes from a pool whose buffers have {limit}", buf.len()));
+    }
     let (a, l) = (buf.as_ptr() as usize, buf.len().max(1));
     let mut h = sh.borrow_mut();
     if let Some(o) = h.held.iter().find(|o| {
@@ -178,6 +186,7 @@ fn bufpool() -> RunResult {
     let pool_size = 1u16 << sim::range("bufpool.size.log2", 0, 4);
     let pool_len = [8usize, 16, 33, 64][sim::choose("bufpool.len", 4)];
     let capacity = 1u32 << sim::range("ring.capacity.log2", 0, 5);
+    POOL_LEN.with(|p| p.set(pool_len));
     let seed = sim::subseed("payload");
     sim::log(|| format!("pool {pool_size} x {pool_len}, ring capacity {capacity}; {cfg:?}"));
     for (i, r) in readers.iter().enumerate() {
@@ -338,6 +347,14 @@ async fn managed(src: &mut Src, len: usize) -> std::io::Result<Option<BufferRef>
         }
         Src::Udp(s) => s.recv_managed(len).await,
         Src::File(f, pos) => {
+            // now and then a read at (or beyond) the end of the file: it delivers nothing and must not cost a buffer
+            if sim::flip("file.read.at.end", 1, 3) {
+                return match f.read_managed_at(len, 1 << 20).await {
+                    Ok(Some(b)) if !b.is_empty() => Err(std::io::Error::other(format!("a read beyond the end of the file delivered {} bytes", b.len()))),
+                    Ok(_) => Ok(None),
+                    Err(e) => Err(e),
+                };
+            }
             let r = f.read_managed_at(len, *pos).await;
             if let Ok(Some(b)) = &r {
                 *pos += b.len() as u64;
